@@ -39,3 +39,40 @@ def obligations(res):
     res.cov["theorems"] = list(res.cov.get("theorems", [])) + THEOREMS
     res.cov["checker_cmd"] = res.cov.get("checker_cmd", "") + " && " + cmd
     return True
+
+
+# ---- the file logger (vedirectapi/fileLogger.go), also owned by C18 ----
+FLOG_THEOREMS = ["C18_flog_appends", "C18_flog_open_error"]
+FLOG_OUT = os.path.join(common.GEN, "FlogImpl.v")
+FLOG_REF = os.path.join(common.COQ, "Api", "FlogImpl.reference")
+FLOG_BROKEN = None
+
+
+def translate_flog():
+    global FLOG_BROKEN
+    FLOG_BROKEN = None
+    rc, o = common.sh([common.GVGEN, "flog", common.REPO, FLOG_OUT], timeout=300)
+    if rc != 0:
+        FLOG_BROKEN = Broken("the GoLite-D translator stopped: vedirectapi/fileLogger.go can no longer be translated (tie T-gen)", o[-3000:])
+        if not os.path.exists(FLOG_OUT) and os.path.exists(FLOG_REF):
+            common.write_if_changed(FLOG_OUT, open(FLOG_REF).read())
+
+
+def flog_obligations(res):
+    res.cov["filelogger_source_tie"] = ("vedirectapi/fileLogger.go translated by gvgen flog into Gen/FlogImpl.v on this run; 'once closed, "
+                                        "every line appended in order after the previous content' re-proved (Api/FlogFacts.v)")
+    if FLOG_BROKEN is not None:
+        res.cov["obligations"] = res.cov.get("obligations", 0) + len(FLOG_THEOREMS)
+        res.broken.append(FLOG_BROKEN)
+        return False
+    try:
+        ob, di, rep, cmd, dt = common.prove("C18flog", FLOG_THEOREMS)
+    except Broken as b:
+        res.cov["obligations"] = res.cov.get("obligations", 0) + len(FLOG_THEOREMS)
+        res.broken.append(Broken("the translated file logger no longer appends exactly the lines after the previous content (tie T-gen): %s" % b.what, b.detail))
+        return False
+    res.cov["obligations"] = res.cov.get("obligations", 0) + ob
+    res.cov["discharged"] = res.cov.get("discharged", 0) + di
+    res.cov["theorems"] = list(res.cov.get("theorems", [])) + FLOG_THEOREMS
+    res.cov["checker_cmd"] = res.cov.get("checker_cmd", "") + " && " + cmd
+    return True
